@@ -145,6 +145,7 @@ impl<'a> GeneratorState<'a> {
                                 */
 
                                 // Load parameters
+                                let nb_deferred = self.deferred_plusplus.len();
                                 {
                                     let mut p = params.clone();
                                     let mut param_iter = f.parameters.iter();
@@ -197,6 +198,14 @@ impl<'a> GeneratorState<'a> {
                                             "Not enough parameters provided in function call",
                                             pos,
                                         ));
+                                    }
+                                }
+                                // The post-increments of the arguments take place before the call
+                                if self.deferred_plusplus.len() > nb_deferred {
+                                    let pending: Vec<_> =
+                                        self.deferred_plusplus.drain(nb_deferred..).collect();
+                                    for d in pending {
+                                        self.generate_plusplus(&d.0, d.1, d.2)?;
                                     }
                                 }
 
